@@ -82,7 +82,7 @@ Qed.
 Ltac symrun H :=
   lazy -[drop_inst init_self init_next update_dict set_all_items set_all_next default_title restore_pdffit update_spcgr
          e_getparser e_title_of e_default_pdffit e_default_cell g_format g_filename g_source ps_parse ps_parsefile
-         po_result po_sg Z.add] in H.
+         po_result po_sg Z.add effective] in H.
 Ltac exec H Hg Hp :=
   unfold parse_of in Hp; symrun H; rewrite Hg in H; symrun H; rewrite Hp in H; cbn [po_result po_sg] in H; symrun H;
   repeat (match type of H with
@@ -122,40 +122,41 @@ Ltac points_tac :=
   end.
 
 (* ---------- 3. after a successful read every atom refers to the target's lattice ---------- *)
-Lemma atoms_point_to_target_lattice : forall E G c en o fs n p ps sg fr,
+Lemma atoms_point_to_target_lattice : forall E G c en o fs n p r sg fr,
   e_getparser E (g_format G) = Ok p ->
-  parse_of G en fs p = {| po_result := Ok (Some ps); po_sg := sg |} ->
+  parse_of G en fs p = {| po_result := Ok r; po_sg := sg |} ->
   run_read E G c en (frame_of o fs n) = Done fr ->
   atoms_point_to_lattice (f_self fr).
 Proof.
-  intros E G c en o fs n p ps sg fr Hg Hp H.
-  destruct c, en; exec H Hg Hp; simpl; points_tac.
-Qed.
-
-(* the parser returned None (no registered parser does): the atoms stay, and still refer to the lattice *)
-Lemma atoms_point_to_target_lattice_none : forall E G c en o fs n p sg fr,
-  e_getparser E (g_format G) = Ok p ->
-  parse_of G en fs p = {| po_result := Ok None; po_sg := sg |} ->
-  atoms_point_to_lattice o ->
-  run_read E G c en (frame_of o fs n) = Done fr ->
-  atoms_point_to_lattice (f_self fr).
-Proof.
-  intros E G c en o fs n p sg fr Hg Hp W H.
+  intros E G c en o fs n p r sg fr Hg Hp H.
   destruct c, en; exec H Hg Hp; simpl; points_tac.
 Qed.
 
 (* ---------- 4. a successful read gives what the same read gives in a brand-new object ---------- *)
-Lemma read_success_eq_fresh : forall E G en o fs n id' n' p ps sg fr fr',
+(* r is whatever the parser returned: a structure or None (then the statements work with Structure()) *)
+Lemma read_success_eq_fresh_eff : forall E G en o fs n id' n' p r sg fr fr',
   e_getparser E (g_format G) = Ok p ->
-  parse_of G en fs p = {| po_result := Ok (Some ps); po_sg := sg |} ->
-  In "_lattice" (map fst (p_inst ps)) ->
+  parse_of G en fs p = {| po_result := Ok r; po_sg := sg |} ->
+  In "_lattice" (map fst (p_inst (effective E r))) ->
   run_read E G (o_cls o) en (frame_of o fs n) = Done fr ->
   run_read E G (o_cls o) en (frame_of (fresh E (o_cls o) id') fs n') = Done fr' ->
-  observe (observed_names ps) (f_self fr) = observe (observed_names ps) (f_self fr').
+  observe (observed_names (effective E r)) (f_self fr) = observe (observed_names (effective E r)) (f_self fr').
 Proof.
-  intros E G en o fs n id' n' p ps sg fr fr' Hg Hp HL H H'.
+  intros E G en o fs n id' n' p r sg fr fr' Hg Hp HL H H'.
   destruct (o_cls o) eqn:C, en; exec H Hg Hp; exec H' Hg Hp; simpl;
     (eapply agree_observe; [ | agree_tac | pay_tac ];
      intros a Ia; simpl in Ia; destruct Ia as [<-|[<-|[<-|[<-|Ia]]]]; apply in_or_app;
      [left; simpl; tauto | left; simpl; tauto | left; simpl; tauto | right; exact HL | right; exact Ia]).
+Qed.
+
+Lemma read_success_eq_fresh : forall E G en o fs n id' n' p r sg fr fr',
+  e_getparser E (g_format G) = Ok p ->
+  parse_of G en fs p = {| po_result := Ok r; po_sg := sg |} ->
+  (forall ps, r = Some ps -> In "_lattice" (map fst (p_inst ps))) ->
+  run_read E G (o_cls o) en (frame_of o fs n) = Done fr ->
+  run_read E G (o_cls o) en (frame_of (fresh E (o_cls o) id') fs n') = Done fr' ->
+  observe (observed_names (effective E r)) (f_self fr) = observe (observed_names (effective E r)) (f_self fr').
+Proof.
+  intros E G en o fs n id' n' p r sg fr fr' Hg Hp HL. apply (read_success_eq_fresh_eff E G en o fs n id' n' p r sg fr fr' Hg Hp).
+  destruct r as [ps|]; [apply HL; reflexivity | simpl; auto].
 Qed.
